@@ -155,7 +155,7 @@ def nodeSpecOracle (s : NodeSpec) (f : T) (impl : List (Nat × Nat)) : Option St
       | some l => !impl.contains (l.start, l.stop)
       | none => true
   let spurious := impl.filter fun p =>
-    !(nodes.any fun n => !s.nonMatch f n && (match s.reportLoc n with | some l => (l.start, l.stop) == p | none => false))
+    !(nodes.any fun n => (match s.reportLoc n with | some l => (l.start, l.stop) == p | none => false) && !s.nonMatch f n)
   match missed, spurious with
   | [], [] => none
   | m :: _, _ => some s!"canonical form not reported: {nodeHead m}"
